@@ -24,8 +24,9 @@ var c17ResetReasons = []string{"StreamConnectionTermination", "StreamConnectionF
 //
 //	StreamOverflow                       never (a refused try is not re-sent, whatever a previous try's status was)
 //	retry_on=false                       only for StreamConnectionFailed
-//	retry_on=true, no status readable    only for ConnectionFailed, PerTryTimeout, ConnectionTermination
-//	retry_on=true, status readable       possible (decided by the status code / the configured list)
+//	retry_on=true, a reset reason        only for ConnectionFailed, PerTryTimeout, ConnectionTermination (whatever status is readable:
+//	                                     after a retried 5xx the context still holds that status)
+//	retry_on=true, no reset reason       possible iff a status is readable (decided by the status code / the configured list)
 //
 // retryTable evaluates doRetryCheck for every (reason, retry_on, status readable) combination: can it answer true?
 func retryTable(c *Ctx, pp string) (tab map[string]bool, fn *ssa.Function, ok bool) {
@@ -45,6 +46,8 @@ func retryTable(c *Ctx, pp string) (tab map[string]bool, fn *ssa.Function, ok bo
 		}
 		reasons[name] = constant.StringVal(k.Val())
 	}
+	// no reset reason at all: a response arrived and its status decides
+	reasons["(response)"] = ""
 	spec := &aiSpec{
 		fn: fn,
 		classify: func(in ssa.Instruction, op func(ssa.Value) aiVal, asg map[string]bool) (aiVal, bool) {
@@ -70,7 +73,7 @@ func retryTable(c *Ctx, pp string) (tab map[string]bool, fn *ssa.Function, ok bo
 	}
 	m := &aiMachine{spec: spec, res: &aiResult{}, visited: map[string]bool{}, c: c}
 	tab = map[string]bool{}
-	for _, name := range c17ResetReasons {
+	for _, name := range append([]string{"(response)"}, c17ResetReasons...) {
 		for _, retryOn := range []bool{false, true} {
 			for _, readable := range []bool{false, true} {
 				args := make([]aiVal, len(fn.Params))
@@ -146,7 +149,7 @@ func c17RetryDecisionTable(c *Ctx, pp string) {
 		return
 	}
 	var wrong []string
-	names := append([]string{}, c17ResetReasons...)
+	names := append([]string{"(response)"}, c17ResetReasons...)
 	sort.Strings(names)
 	n := 0
 	for _, name := range names {
@@ -161,12 +164,15 @@ func c17RetryDecisionTable(c *Ctx, pp string) {
 				case name == "UpstreamGlobalTimeout" && !canTrue:
 					// kept away from the decision by onUpstreamReset today; refusing it here as well is right (globalTimeoutFinal)
 					want = false
+				case name == "(response)":
+					// a response arrived: retried only with retry_on and a readable status (the status list decides)
+					want = retryOn && readable
 				case !retryOn:
 					want = name == "StreamConnectionFailed"
-				case !readable:
-					want = name == "StreamConnectionFailed" || name == "UpstreamPerTryTimeout" || name == "StreamConnectionTermination"
 				default:
-					want = true
+					// a try ended by a reset: the reason decides, whatever status a previous try left in the context
+					// (until repair 82 a readable status could turn any reset into a retry)
+					want = name == "StreamConnectionFailed" || name == "UpstreamPerTryTimeout" || name == "StreamConnectionTermination"
 				}
 				if canTrue != want {
 					verb := "can be retried"
